@@ -303,12 +303,17 @@ _ABSENT = object()
 
 
 class FakeTemplate(object):
+    """Like a jinja2 Template: compiled from the source as it was when the
+    environment loaded it (Environment.get_template re-checks the source on
+    every call, a Template object kept by the caller does not)."""
+
     def __init__(self, env, name):
         self.env = env
         self.name = name
+        self.text = env.templates.get(name, "<no template>")
 
     def render(self, ctx, *a, **k):
-        text = self.env.templates.get(self.name, "<no template>")
+        text = self.text
         path = ctx.get("output", {}).get("filepath", "<nopath>") if isinstance(ctx, dict) else "<data>"
         return "TEX[%s|CSV=%s]" % (text, path)
 
